@@ -92,6 +92,23 @@ impl CommandParser {
                 (r matches Ok(SortedSetCommand::ZAdd { key, score_members }) && key@ == arg(frames@, 1)->Some_0 && view_pairs(score_members@) == zadd_pairs(frames@)),
 //@@ body
 //@@ end
+
+//@@ unit parse_zscore fn src/storage/commands/executor.rs CommandParser::parse_zscore
+    fn parse_zscore(frames: &[RespFrame]) -> (r: Result<SortedSetCommand>)
+        ensures
+            (frames@.len() != 3 || arg(frames@, 1) is None || arg(frames@, 2) is None) ==> r is Err,
+            frames@.len() == 3 && arg(frames@, 1) is Some && arg(frames@, 2) is Some ==>
+                (r matches Ok(SortedSetCommand::ZScore { key, member }) && key@ == arg(frames@, 1)->Some_0 && member@ == arg(frames@, 2)->Some_0),
+//@@ body
+//@@ end
+
+//@@ unit parse_zcard fn src/storage/commands/executor.rs CommandParser::parse_zcard
+    fn parse_zcard(frames: &[RespFrame]) -> (r: Result<SortedSetCommand>)
+        ensures
+            (frames@.len() != 2 || arg(frames@, 1) is None) ==> r is Err,
+            frames@.len() == 2 && arg(frames@, 1) is Some ==> (r matches Ok(SortedSetCommand::ZCard { key }) && key@ == arg(frames@, 1)->Some_0),
+//@@ body
+//@@ end
 }
 
 /// MODEL of UnifiedCommandExecutor (the implementation scripts reach through redis.call): the storage engine model
@@ -143,6 +160,26 @@ impl UnifiedCommandExecutor {
                         && final(self).storage.z@ == old(self).storage.z@.insert((db as int, key@), res.1)
                         && final(self).storage.ttl@ == old(self).storage.ttl@
             }),
+//@@ body
+//@@ end
+//@@ unit exec_zscore arm src/storage/commands/executor.rs UnifiedCommandExecutor::execute_sorted_set "SortedSetCommand::ZScore { key, member }"
+//@@   rewrite RT "RespFrame::from_string(score.to_string())" "verif_score_frame(score)"
+    fn exec_zscore(&mut self, db: usize, key: Vec<u8>, member: Vec<u8>) -> (r: Result<RespFrame>)
+        ensures final(self).storage.ds@ == old(self).storage.ds@ && final(self).storage.ttl@ == old(self).storage.ttl@ && final(self).storage.z@ == old(self).storage.z@,
+            ({  let zm = zmembers(old(self).storage.z@, db as int, key@);
+                // C12 / C04: exactly the direct ZSCORE (handle_zscore)
+                if other_type(old(self).storage.ds@, db as int, key@) { !(r matches Ok(f) && !(f is Error)) }
+                else if zm.contains_key(member@) { r == Ok::<RespFrame, FerrousError>(score_text(zm[member@])) }
+                else { r == Ok::<RespFrame, FerrousError>(RespFrame::BulkString(None)) } }),
+//@@ body
+//@@ end
+
+//@@ unit exec_zcard arm src/storage/commands/executor.rs UnifiedCommandExecutor::execute_sorted_set "SortedSetCommand::ZCard { key }"
+    fn exec_zcard(&mut self, db: usize, key: Vec<u8>) -> (r: Result<RespFrame>)
+        ensures final(self).storage.ds@ == old(self).storage.ds@ && final(self).storage.ttl@ == old(self).storage.ttl@ && final(self).storage.z@ == old(self).storage.z@,
+            // C12 / C04: exactly the direct ZCARD (handle_zcard)
+            if other_type(old(self).storage.ds@, db as int, key@) { !(r matches Ok(f) && !(f is Error)) }
+            else { r == Ok::<RespFrame, FerrousError>(RespFrame::Integer(zmembers(old(self).storage.z@, db as int, key@).dom().len() as i64)) },
 //@@ body
 //@@ end
 }
